@@ -359,7 +359,19 @@ func (p *Program) lemmaDuty(x *Exec, ax *Axiom) (obs []*Obligation, err error) {
 			}
 		}
 		p.spec.Axioms = defs
+		plain := &Obligation{Name: ob.Name, Func: ob.Func, Kind: ob.Kind, Props: ob.Props, Descr: ob.Descr, Tags: ob.Tags,
+			Hyps: append([]*Term(nil), ob.Hyps...), Goal: ob.Goal}
 		p.instantiate(ob)
+		ob.prep = func() {
+			// a lemma may use definitions and the lemmas before it, never itself (the same restriction as above)
+			saved := p.spec.Axioms
+			p.spec.Axioms = defs
+			defer func() { p.spec.Axioms = saved }()
+			if alt := skolemVariant(plain); alt != nil {
+				p.instantiate(alt)
+				ob.Alt = alt
+			}
+		}
 		p.spec.Axioms = saved
 		return ob
 	}
